@@ -59,6 +59,8 @@ def run(ctx):
   rule_pure(ctx)
   rule_ladder(ctx)
   rule_template(ctx)
+  rule_universal(ctx)
+  ctx.expect("R-C12-UNIVERSAL", 2, "statistic + p-value")
   ctx.expect("R-C12-TEMPLATE", 3, "border test, default set, validation")
   ctx.expect("R-C12-LADDER", 3, "loop condition, guard agreement, matrix shape")
   ctx.expect("R-C12-PURE", 56, "every function of the five modules behind the statistical tests")
@@ -1311,3 +1313,94 @@ def rule_template(ctx):
                 as_poly(fc[1]).as_atom().args[0] == P("lit", MOD + ":IsNonOverlappingTemplate") for fc in e.facts) for e in rs)
   ctx.record(R, f3.where, "explicit overlapping templates are rejected", okv, "raise under `not IsNonOverlappingTemplate(b, m)`" if okv else
              "no raise is conditioned on IsNonOverlappingTemplate being false for a supplied template")
+
+
+# ------------------------------------------------------------------ UNIVERSAL: Maurer's statistic with a last-occurrence table
+def rule_universal(ctx):
+  """f_n = (1/K) sum_{i=Q+1..Q+K} log2(i - T[block_i]) with T the last position (1-based, 0 if never seen).  With positions p counted from an
+  arbitrary base the table must start at (first position - 1); each test block adds log2(p - T[b]) and *then* sets T[b] = p."""
+  R = "R-C12-UNIVERSAL"
+  repo = ctx.repo
+  f = repo.func(MOD, "UniversalImpl")
+  w = sym.Walker(repo, f)
+  w.run()
+  loops = sorted([i for i in w.loop_info.values() if i["visits"] and isinstance(i["node"], ast.For)], key=lambda i: i["node"].lineno)
+  probs = []
+  if len(loops) != 2:
+    raise Incomplete("UniversalImpl: expected an initialisation loop and a test loop", f.where)
+  init, test = loops
+
+  def positions(info):
+    vis = info["visits"][0]
+    it = as_poly(vis["iter"]).as_atom() if not isinstance(vis["iter"], Seq) and vis["iter"] is not None else None
+    if it is None or it.kind != "range" or len(it.args) > 2:
+      return None, None, None
+    start = Poly.const(0) if len(it.args) == 1 else as_poly(it.args[0])
+    stop = as_poly(it.args[-1])
+    return start, stop, start + as_poly(vis["k"])
+  s0, e0, p0 = positions(init)
+  s1, e1, p1 = positions(test)
+  if p0 is None or p1 is None:
+    raise Incomplete("UniversalImpl: loops are not over ranges of block positions", f.where)
+  # the table
+  vi, vt = init["visits"][0], test["visits"][0]
+  tabs = [nm for nm, pv in vi["pre_env"].items() if pv is not None and not isinstance(pv, (Seq, Const, tuple)) and as_poly(pv).as_atom() is not None and as_poly(pv).as_atom().kind == "listrep"]
+  if len(tabs) != 1:
+    raise Incomplete("UniversalImpl: last-occurrence table not identified", f.where)
+  tab = tabs[0]
+  ta = as_poly(vi["pre_env"][tab]).as_atom()
+  I = as_poly(ta.args[0].as_atom().args[0]) if ta.args[0].as_atom() is not None and ta.args[0].as_atom().kind == "seq" and len(ta.args[0].as_atom().args) == 1 else None
+  if I is None or not (I - (s0 - 1)).is_zero():
+    probs.append("the table starts at %r but positions start at %r: a pattern first seen in the test segment at position p must contribute log2(p - (first position - 1)) "
+                 "= log2 of its 1-based index" % (I, s0))
+  if not (s1 - e0).is_zero():
+    probs.append("the test segment does not start where the initialisation segment ends")
+  # initialisation: T[block_p] = p
+  for kind, val, s_, since, v2 in init["body_paths"]:
+    evs = [w.events[x] for x in s_.trace if x >= since]
+    st = [e for e in evs if e.kind == "store" and as_poly(e.data["base"]) == as_poly(vi["head"].env[tab])]
+    if kind != "fall" or len(st) != 1 or as_poly(st[0].data["value"]) != p0:
+      probs.append("initialisation does not record each block's own position")
+    else:
+      ia = as_poly(st[0].data["index"]).as_atom()
+      off0 = (p0 - as_poly(ia.args[1])) if ia is not None and ia.kind == "idx" else None
+      if off0 is None or off0.as_int() is None or not (s0 - off0).is_zero():
+        probs.append("initialisation does not index the table by the block at that position (block number = position - first position)")
+  # test: sum += log2(p - T[b]) ; then T[b] = p
+  TH = as_poly(vt["head"].env[tab])
+  acc = None
+  for kind, val, s_, since, v2 in test["body_paths"]:
+    evs = [w.events[x] for x in s_.trace if x >= since]
+    st = [e for e in evs if e.kind == "store" and as_poly(e.data["base"]) == TH]
+    aug = [e for e in evs if e.kind == "augassign"]
+    if kind != "fall" or len(st) != 1 or len(aug) != 1:
+      probs.append("a test block does not add exactly one term and update exactly one table entry")
+      continue
+    bidx = as_poly(st[0].data["index"])
+    want = sym.mk("math.log", p1 - sym.mk("idx", TH, bidx), Poly.const(2))
+    if as_poly(aug[0].data["rhs"]) != want:
+      probs.append("the term of a test block is not log2(position - last position of the same block) read before the table is updated")
+    if as_poly(st[0].data["value"]) != p1:
+      probs.append("the table is not updated with the block's own position")
+    ba = bidx.as_atom()
+    off1 = (p1 - as_poly(ba.args[1])) if ba is not None and ba.kind == "idx" else None
+    if off1 is None or off1.as_int() is None or not (s0 - off1).is_zero():
+      probs.append("the table is not indexed by the block at the current position")
+    acc = aug[0].data["name"]
+  ctx.record(R, f.where, "f_n = (1/K) sum log2(position - last position), unseen patterns count from the start", not probs, "; ".join(sorted(set(probs))) or
+             "table starts at first position - 1 = %r; init records positions %r..; test adds log2(p - T[b]) then sets T[b] = p" % (I, s0))
+  # p = erfc(|f - mean| / std / sqrt 2) with f = sum / K
+  rets = [t for t in w.terminals if t[0] == "return" and not isinstance(t[1], (Seq, Const, tuple))]
+  okp = False
+  if rets and acc is not None:
+    S = as_poly(vt["after_env"][acc])
+    K = e1 - s1
+    dist = None
+    for a in as_poly(rets[0][1]).all_atoms():
+      if a.kind == "call" and "UniversalDistribution" in repr(a.args[0]):
+        dist = Poly.atom(a)
+    if dist is not None:
+      want = sym.mk("math.erfc", _td(_td(sym.mk("abs", _td(S, K) - sym.mk("idx", dist, _c(0))), sym.mk("idx", dist, _c(1))), sym.mk("math.sqrt", _c(2))))
+      okp = ratfun.equal_terms(as_poly(rets[0][1]), want)[0]
+  ctx.record(R, f.where, "p = erfc(|f_n - expected| / sigma / sqrt 2)", okp, "f_n = sum / K with K = number of test blocks; (expected, sigma) = UniversalDistribution(L, K)" if okp else
+             "the p-value is not erfc(|sum/K - expected| / sigma / sqrt(2))")
